@@ -134,7 +134,13 @@ func (s *set[ElementType]) replace(elements ds.ReadableSet[ElementType]) (applie
 	s.readableSet.mutex.Lock()
 	defer s.readableSet.mutex.Unlock()
 
-	return ds.NewSetMutations[ElementType](elements.ToSlice()...).WithDeletedElements(s.value.Replace(elements)), s.uniqueUpdateID.Next(), s.updateCallbacks.Values()
+	// only elements that were not part of the set before are reported as added (subscribers like SubtractReactive count
+	// the reported mutations, so an element that stays in the set must not be reported again)
+	addedElements := elements.Filter(func(element ElementType) bool {
+		return !s.value.Has(element)
+	})
+
+	return ds.NewSetMutations[ElementType]().WithAddedElements(addedElements).WithDeletedElements(s.value.Replace(elements)), s.uniqueUpdateID.Next(), s.updateCallbacks.Values()
 }
 
 // endregion ///////////////////////////////////////////////////////////////////////////////////////////////////////////
